@@ -951,7 +951,60 @@ def r03_21(chk):
     chk.floor("R03.21", 1, "sample")
 
 
+def _indel_space(e):
+    """coordinate space of an integer expression inside IndelMap: 'seq' (positions on the ungapped sequence:
+    gap_pos, parent_length), 'gap' (lengths of gaps: cum_gap_lengths, get_gap_lengths), 'aln' (seq + gap, len(self)),
+    None when not understood"""
+    t = norm(e)
+    if isinstance(e, ast.Constant):
+        return "const"
+    if isinstance(e, ast.BinOp) and isinstance(e.op, (ast.Add, ast.Sub)):
+        a, b = _indel_space(e.left), _indel_space(e.right)
+        if "const" in (a, b):
+            return b if a == "const" else a
+        if {a, b} == {"seq", "gap"} and isinstance(e.op, ast.Add):
+            return "aln"
+        if a == "aln" and b == "gap" and isinstance(e.op, ast.Sub):
+            return "seq"
+        if a == b:
+            return a if isinstance(e.op, ast.Add) else ("gap" if a in ("seq", "aln") else a)
+        return None
+    if isinstance(e, ast.Subscript):
+        return _indel_space(e.value)
+    if isinstance(e, ast.Call) and norm(e.func) in ("int", "numpy.int64"):
+        return _indel_space(e.args[0]) if e.args else None
+    if t in ("self.gap_pos", "self.parent_length"):
+        return "seq"
+    if t in ("self.cum_gap_lengths",):
+        return "gap"
+    if t in ("len(self)",):
+        return "aln"
+    return None
+
+
+def r03_22(chk):
+    chk.rule("R03.22", "IndelMap keeps three kinds of integers apart: positions on the ungapped sequence (gap_pos, parent_length), gap lengths (cum_gap_lengths) and alignment columns (position + cumulative gap length, len(self)). No comparison in an IndelMap method puts a column against a sequence position: `gap_pos[-1] + cum_gap_lengths[-1] < parent_length` asked whether the last gap's COLUMN lies before the sequence LENGTH, so get_coordinates() dropped the last ungapped segment whenever the gaps before it were long enough (AC-GTA--CG: (5, 7) missing)")
+    m = chk.repo.module("core/location.py")
+    ci = m.cls("IndelMap")
+    n = 0
+    for name, fn in ci.methods.items():
+        if not isinstance(fn, ast.FunctionDef):
+            continue
+        k_ = 0
+        for c in walk_no_nested(fn):
+            if not (isinstance(c, ast.Compare) and len(c.ops) == 1 and isinstance(c.ops[0], (ast.Lt, ast.LtE, ast.Gt, ast.GtE, ast.Eq, ast.NotEq))):
+                continue
+            a, b = _indel_space(c.left), _indel_space(c.comparators[0])
+            if a is None or b is None or "const" in (a, b):
+                continue
+            n += 1
+            k_ += 1
+            chk.decide(a == b, "R03.22", key(m, f"IndelMap.{name}", f"typed comparison {k_}"), m.loc(c), f"both sides are {a} coordinates", f"`{norm(c)}` compares a {a} coordinate with a {b} coordinate: for 'AC-GTA--CG' (gap_pos [2, 5], cumulative lengths [1, 3], parent_length 7) the last ungapped segment (5, 7) is left out of get_coordinates()")
+    chk.floor("R03.22", 2, "typed comparisons in IndelMap")
+
+
 def run(chk):
+    r03_22(chk)
     r03_21(chk)
     r03_20(chk)
     r03_19(chk)
